@@ -246,6 +246,41 @@ def r13_11(prog: Program, rep):
            "boundary and a walk in the same Repo object yields a truncated history (a reopened one does not)", un[0].lineno)
 
 
+def r13_12(prog: Program, rep):
+    """(a) find_octopus_base reduces the folded candidates (a redundancy filter inside the fold loop); (b) the walker peels excluded
+    tag objects as it peels included ones (the excluded set is compared with commit ids); (c) in topological order the entry
+    limit and the filters are applied AFTER the sort: _next does not count max_entries for ORDER_TOPO and _reorder slices the
+    sorted sequence."""
+    m = prog.module("dulwich/graph.py")
+    f = m.funcs.get("find_octopus_base")
+    if f is None:
+        raise AnalysisError("graph.find_octopus_base not found")
+    loops = [l for l in ast.walk(f.node) if isinstance(l, ast.For)]
+    red = any(isinstance(c, ast.Call) and callee_name(c) in ("_remove_redundant", "independent") for l in loops for c in ast.walk(l)) or \
+        any(isinstance(c, ast.Call) and callee_name(c) in ("_remove_redundant",) for c in ast.walk(f.node) if getattr(c, "lineno", 0) > (loops[-1].lineno if loops else 0))
+    rep.ob("R13.12", m.rel, f.qual, "the candidates folded pairwise are reduced to the maximal ones (redundancy filter)", red,
+           "the per-candidate results are concatenated: on a criss-cross history a common ancestor comes back together with one of its ancestors, or twice, "
+           "and merge_base(octopus=True) answers with a non-maximal base", f.node.lineno)
+    w = prog.module("dulwich/walk.py")
+    init = w.funcs.get("Walker.__init__")
+    if init is None:
+        raise AnalysisError("walk.Walker.__init__ not found")
+    peels = any(isinstance(c, ast.Call) and callee_name(c) == "isinstance" and "Tag" in norm(c) for c in ast.walk(init.node)) or \
+        any(isinstance(c, ast.Call) and callee_name(c) in ("peel_sha", "_peel") for c in ast.walk(init.node))
+    rep.ob("R13.12", w.rel, init.qual, "excluded tag objects are peeled to the commit they point at", peels,
+           "the id of an excluded annotated tag stays in the excluded set, which is compared with commit ids: nothing is excluded and the tagged history is "
+           "walked as if it were included (git rev-list main ^v1 excludes it)", init.node.lineno)
+    nx, ro = w.funcs.get("Walker._next"), w.funcs.get("Walker._reorder")
+    if nx is None or ro is None:
+        raise AnalysisError("walk.Walker._next/_reorder not found")
+    cond = any("ORDER_TOPO" in norm(x) for x in ast.walk(nx.node) if isinstance(x, (ast.IfExp, ast.If, ast.BoolOp, ast.Compare)))
+    slc = any(isinstance(c, ast.Call) and callee_name(c) == "islice" or (isinstance(c, ast.Subscript) and isinstance(c.slice, ast.Slice) and "max_entries" in norm(c))
+              for c in ast.walk(ro.node))
+    rep.ob("R13.12", w.rel, nx.qual + " / _reorder", "in topological order max_entries is applied to the sorted sequence, not to the date-ordered stream", cond and slc,
+           "the limit cuts the date-ordered stream before the topological sort: under clock skew or a tie a parent is kept and its child dropped "
+           "(D, B, A instead of D, C, B on a diamond)", nx.node.lineno)
+
+
 def run(prog: Program, rep, tier="quick"):
     rep.rule("R13.1", "TAINT with implicit flows, graph.py: no termination/skip in a traversal is control dependent on a "
                       "timestamp-tainted test")
@@ -255,6 +290,8 @@ def run(prog: Program, rep, tier="quick"):
     rep.rule("R13.11", "update_shallow keeps the shallow file and the graft points loaded from it together")
     r13_10(prog, rep)
     r13_11(prog, rep)
+    r13_12(prog, rep)
+    rep.rule("R13.12", "octopus base reduced to maximal candidates; excluded tags peeled; topological walk limits after sorting")
     rep.rule("R13.9", "exclusion propagation in the walker is complete: every parent of an excluded commit is excluded")
     rep.rule("R13.8", "MONOTONE FLAGS: every store to the flag map of _find_lcas accumulates (`old | new`) unless it is the first store")
     rep.rule("R13.6", "walk.py has one source of ancestry: the walker's get_parents (no direct .parents, helpers get the caller's function)")
